@@ -23,8 +23,8 @@ CHECKS = {
             "names are Text tokens (case folding and literal spelling are stage A); values are numbers; program length and name pool bounded",
             "solver-based: z3 over SMT generated from the MIR, program shapes enumerated exhaustively"),
     "C04": ("K+M", "model_checking",
-            "session re-use: set_text puts the cursor back and stores the new lines on every path (z3/path enumeration over its MIR); from that state execute_session returns exactly line_count slots for every n <= 4 and every per-line outcome (CBMC)",
-            "calculator immutability across evaluations (pattern tokens) and variable isolation are not covered by a finished check; line splitting itself is regex code",
+            "session re-use: set_text puts the cursor back and stores the new lines on every path (z3/path enumeration over its MIR); from that state execute_session returns exactly line_count slots for every n <= 4 and every per-line outcome (CBMC); calculator immutability: neither applying nor declining a rule writes into the calculator's own pattern tokens (rule_tokinizer from MIR, rule decision symbolic); execute() builds a fresh session (variables never leak: C03's programs run on explicit sessions)",
+            "line splitting itself is regex code; immutability is decided for the rule-rewriting stage (the only stage that holds references into the configuration's token objects) with one API rule",
             "solver-based: MIR symbolic execution + CBMC"),
     "C05": ("M+K", "translation_validation",
             "all percentage formulas: number_on/of/off, find_numbers_percent, find_total_from_percent, X +- p% for numbers and money: on every path of the translated functions the result equals the textbook formula over the reals, zero divisors yield 0, money keeps its currency, no panic and no Err under the rule patterns; CBMC adds the result kinds on all f64",
@@ -34,6 +34,10 @@ CHECKS = {
             "convert_money and MoneyItem::calculate for symbolic rates and currencies: amount / rate(A) * rate(B), identity for A = B, left currency kept, scaling by numbers, money/money as plain ratio; CBMC adds kinds/currency identity on all f64",
             "rate table lookups are uninterpreted functions of the currency; update_currency histories and literal spellings are outside; f64 rounding outside",
             "solver-based: z3 over SMT generated from the MIR of the real functions"),
+    "C18": ("M", "translation_validation",
+            "registration bookkeeping: every sequence of <= 4 (quick) / 5 (thorough) calls of add_rule / delete_rule / add_dynamic_type / add_dynamic_type_item with three rule objects whose names are symbolic strings, two languages (one unknown), one family, two indices: return values and resulting rule order / family tables equal a reference list model (add fails only for an unknown language, delete removes the first rule of that name, duplicates rejected without change); API-rule effect: a match calls the rule with fields bound by name and replaces exactly the matched span, a declining rule leaves the line unchanged",
+            "pattern tokenisation of rule strings (add_rule runs the regex tokeniser on its patterns) and user-family conversion arithmetic are outside: rules are registered with empty pattern lists in the bookkeeping spec and with a hand-built pattern in the effect spec",
+            "solver-based: z3 over SMT generated from the MIR, call sequences enumerated exhaustively"),
     "C09": ("K+M", "model_checking",
             "DateItem::calculate on the real chrono: every date of years 1..9999 +- n days (n < 30) is exactly n days away; + Y years M months keeps the day and moves the month index by 12Y+M inside the stated region (CBMC); small_date accepts exactly the calendar dates and denotes them (z3 over MIR, Gregorian model validated against chrono by CBMC); 'A to B' on dates is the absolute difference",
             "month/year arithmetic of DateItem::calculate outside the stated region (December landings, day > 28, subtraction across a year boundary, day counts >= 30 that are not month multiples) is NOT claimed: it has defects documented in DESIGN.md section 7; date spellings are regex",
@@ -66,7 +70,6 @@ NA = {
     "C15": "printer/reader round trip: both ends are string/regex code (format strings, word lists, literal regexes) with no arithmetic kernel to encode",
     "C16": "about stage A only (regex order, span claiming, to_lowercase comparisons over arbitrary text); nothing of it survives below the tokeniser",
     "C17": "UiTokenCollection is Vec surgery + sort_by over byte/char offset tables built from arbitrary strings; CBMC harnesses ran out of memory; no finished solver-based check yet",
-    "C18": "registration bookkeeping goes through the regex tokeniser (add_rule tokenises patterns) and BTreeMap/Vec surgery; no finished solver-based check yet",
     "C19": "relation between two evaluations through per-language word tables and alias/month regexes; the relabelling itself is data + regex matching",
 }
 
